@@ -1,5 +1,47 @@
+import TcheranVerif.Props.C19
 import TcheranVerif.Model.Search
+/-!
+# C12 — same state, same search; `ucinewgame` means a fresh engine
+
+In the model a search is a *function* of (position with its history, table contents, history
+heuristic table, depth limit, stop oracle): `search fuel g tt hist depth stopAt every`. Determinism
+is therefore definitional; what carries content is that this argument list is **complete** — the
+correspondence check shows the model reproduces every info line of the implementation verbatim
+from these inputs alone (no clock, address or hidden static enters) — and that `ucinewgame` resets
+everything in that list:
+* `reset_is_new` — after `ucinewgame` the transposition table *is* the table of a fresh engine with
+  the same Hash option (`Props.C19.reset_is_new`), for every well-formed table;
+* `newgame_search_eq_fresh` — hence a search after `ucinewgame` equals the search of a fresh engine;
+* `history_reset` — the history heuristic table after `reset` is the fresh all-zero table.
+Independence from wall-clock time and machine load is sampled (second run under load): partial.
+-/
 namespace Tcheran.Props.C12
-theorem placeholder : True := trivial
+open Tcheran Tcheran.Search
+
+theorem reset_is_new (t : TT.Table) (h : Props.C19.WF t) : t.reset = TT.new t.sizeMb :=
+  Props.C19.reset_is_new t h
+
+/-- `PersistentState::reset` then search = fresh `PersistentState::new(hash)` then search -/
+theorem newgame_search_eq_fresh (fuel : Nat) (g : Game) (t : TT.Table) (h : Props.C19.WF t)
+    (depth : Option Nat) (stopAt : Nat) (every : Bool) :
+    search fuel g t.reset newHistory depth stopAt every = search fuel g (TT.new t.sizeMb) newHistory depth stopAt every := by
+  rw [reset_is_new t h]
+
+/-- whatever was searched before: any sequence of table operations keeps the table well-formed, so
+    the reset afterwards gives the fresh table -/
+theorem newgame_after_any_history (mb : Nat) (ops : List Props.C19.Op) :
+    (ops.foldl Props.C19.apply (TT.new mb)).reset = TT.new (ops.foldl Props.C19.apply (TT.new mb)).sizeMb :=
+  reset_is_new _ (Props.C19.wf_run mb ops)
+
+theorem history_reset : newHistory = Array.replicate 8192 (0 : Int) := rfl
+
+theorem decay_of_fresh : historyDecay newHistory = newHistory := by
+  unfold historyDecay newHistory
+  simp [Array.map_replicate, Int.tdiv]
+
 end Tcheran.Props.C12
-#print axioms Tcheran.Props.C12.placeholder
+#print axioms Tcheran.Props.C12.reset_is_new
+#print axioms Tcheran.Props.C12.newgame_search_eq_fresh
+#print axioms Tcheran.Props.C12.newgame_after_any_history
+#print axioms Tcheran.Props.C12.history_reset
+#print axioms Tcheran.Props.C12.decay_of_fresh
